@@ -29,7 +29,7 @@
                                     differ and the round trip holds (C10_parsed_brackets_other_way). *)
 From Coq Require Import List NArith Bool String.
 From UP Require Import Base.Chars Model.Uri Model.Common Model.Compare Model.Resolve Model.Shorten
-  Model.Recompose Model.Parse Spec.NormalWf Proofs.ResolveProofs Proofs.ShortenProofs Proofs.ShortenText.
+  Model.Recompose Model.Parse Spec.NormalWf Proofs.DotSegments Proofs.ResolveProofs Proofs.ShortenProofs Proofs.ShortenText.
 From UP Require Spec.Recompose.
 Import ListNotations.
 Local Open Scope N_scope.
@@ -92,6 +92,29 @@ Theorem C10_parsed_roundtrip_no_ip : forall m s b S B, parse s = POk S -> parse 
   /\ same_target (snd (add_base false r B)) S.
 Proof. exact roundtrip_parsed_carved_no_ip. Qed.
 Print Assumptions C10_parsed_roundtrip_no_ip.
+
+(* the cases of C10_roundtrip_copy_partial and C10_roundtrip_other_authority_partial (the reference is the
+   source, or the source without its scheme), no dot segment in the source path: the text comes back *)
+Theorem C10_parsed_roundtrip_copy : forall m s b S B, parse s = POk S -> parse b = POk B ->
+  scheme S <> None -> scheme B <> None ->
+  range_eqb (scheme S) (scheme B) = false
+  \/ (equals_authority S B = false /\ is_host_set S = false /\ is_host_set B = true) ->
+  forallb nodot (pathSegs S) = true ->
+  let r := snd (remove_base m S B) in
+  fst (add_base false r B) = URI_SUCCESS
+  /\ to_text (snd (add_base false r B)) = canon_ip6 s.
+Proof. exact roundtrip_parsed_copy. Qed.
+Print Assumptions C10_parsed_roundtrip_copy.
+
+Theorem C10_parsed_roundtrip_other_authority : forall m s b S B, parse s = POk S -> parse b = POk B ->
+  scheme S <> None -> scheme B <> None ->
+  range_eqb (scheme S) (scheme B) = true -> equals_authority S B = false -> is_host_set S = true ->
+  forallb nodot (pathSegs S) = true ->
+  let r := snd (remove_base m S B) in
+  fst (add_base false r B) = URI_SUCCESS
+  /\ to_text (snd (add_base false r B)) = canon_ip6 s.
+Proof. exact roundtrip_parsed_other_authority. Qed.
+Print Assumptions C10_parsed_roundtrip_other_authority.
 
 (* field-by-field equality implies equality of the texts *)
 Theorem C10_same_target_text : forall a b, same_target a b -> same_text_target a b.
@@ -174,3 +197,17 @@ Example C10_parsed_roundtrip_kinds :
      (false, "t://1.2.3.4/a", "s://1.2.3.4/a"); (false, "s://[::1]/a", "s://[::2]/a"); (false, "s://h/a?p", "s://h/a?q");
      (false, "s:/a", "s://h/b"); (true, "s:/a", "s:b"); (false, "s://v1.x/a/b", "s://v1.x/a/c")] = true.
 Proof. vm_compute. reflexivity. Qed.
+
+(* the copy cases: other scheme; same scheme, other authority *)
+Example C10_parsed_copy_example :
+  exists S1 B1 S2 B2, parse (txt "t://h/a") = POk S1 /\ parse (txt "s://h/a") = POk B1
+    /\ parse (txt "s://u@h/a") = POk S2 /\ parse (txt "s://h/a") = POk B2
+    /\ range_eqb (scheme S1) (scheme B1) = false
+    /\ to_text (snd (add_base false (snd (remove_base false S1 B1)) B1)) = txt "t://h/a"
+    /\ range_eqb (scheme S2) (scheme B2) = true /\ equals_authority S2 B2 = false /\ is_host_set S2 = true
+    /\ to_text (snd (remove_base false S2 B2)) = txt "//u@h/a"
+    /\ to_text (snd (add_base false (snd (remove_base false S2 B2)) B2)) = txt "s://u@h/a".
+Proof.
+  do 4 eexists. split; [vm_compute; reflexivity|]. split; [vm_compute; reflexivity|].
+  split; [vm_compute; reflexivity|]. split; [vm_compute; reflexivity|]. repeat split.
+Qed.
